@@ -299,6 +299,10 @@ func SignPSS(rand io.Reader, priv *PrivateKey, hash crypto.Hash, digest []byte, 
 	// }
 	// boring.UnreachableExceptTests()
 
+	if err := checkPub(&priv.PublicKey); err != nil {
+		return nil, err
+	}
+
 	if opts != nil && opts.Hash != 0 {
 		hash = opts.Hash
 	}
@@ -342,6 +346,10 @@ func VerifyPSS(pub *PublicKey, hash crypto.Hash, digest []byte, sig []byte, opts
 	// 	...
 	// 	return boring.VerifyRSAPSS(bkey, hash, digest, sig, opts.saltLength())
 	// }
+	if err := checkPub(pub); err != nil {
+		return err
+	}
+
 	if len(sig) != pub.Size() {
 		return ErrVerification
 	}
